@@ -78,6 +78,10 @@ class MessageExtractor:
                 code = node.code.code
             elif isinstance(node, parsetree.Expression):
                 code = node.code.code
+                if node.escapes:
+                    # the filter list may contain translation calls too,
+                    # e.g. ${x | wrap(_('label'))}
+                    code = code + "|" + node.escapes
             else:
                 continue
 
